@@ -469,7 +469,7 @@ def run(ctx):
     jobs = []
     # ---- Part A: every start x every trainable subset, depth 1, full menu
     maxlen = 2 if ctx.quick else 3
-    meas_a = ["Z", "ham"] if ctx.quick else ["Z", "ham", "sum", "herm", "zham"]
+    meas_a = ["Z", "ham", "pham"] if ctx.quick else ["Z", "ham", "pham", "sum", "herm", "zham"]
     n_a = 0
     for w in words(OPS_A, maxlen, 1):
         small = set(w) <= set(OPS_QUICK2)
@@ -478,7 +478,7 @@ def run(ctx):
         if len(w) == 3 and not set(w) <= set(OPS_THOROUGH3):
             continue  # thorough: length-3 words over OPS_THOROUGH3 only
         for mi, m in enumerate(meas_a):
-            if len(w) == 2 and (mi >= 2 or (mi == 1 and (ctx.quick or not small))):
+            if len(w) == 2 and (mi >= 3 or (mi == 2 and not small) or (mi == 1 and (ctx.quick or not small))):
                 continue  # pairs: Z always, ham for the small alphabet (thorough)
             if len(w) == 3 and mi >= 1:
                 continue
